@@ -116,12 +116,12 @@ func parseProxy(s string) (Proxy, error) {
 		return Proxy{Mode: DIRECT}, nil
 	}
 
-	mode, hostport, ok := strings.Cut(s, " ")
-	if !ok {
+	// Blanks and tabs, one or more, separate the keyword from host:port.
+	i := strings.IndexAny(s, " \t")
+	if i < 0 {
 		return noProxy, errors.New("missing host:port")
 	}
-	// More than one blank may separate the keyword from host:port.
-	hostport = strings.TrimLeft(hostport, " \t")
+	mode, hostport := s[:i], strings.TrimLeft(s[i:], " \t")
 	host, port, err := net.SplitHostPort(hostport)
 	if err != nil {
 		return noProxy, fmt.Errorf("split host:port: %w", err)
